@@ -42,7 +42,12 @@ func (SlidingWindow) New(cfg Config) fiber.Handler {
 		mux.Lock()
 
 		// Get entry from pool and release when finished
-		e := manager.get(key)
+		e, err := manager.get(key)
+		if err != nil {
+			// the counter cannot be read: the request is not admitted
+			mux.Unlock()
+			return err
+		}
 
 		// Get timestamp
 		ts := uint64(utils.Timestamp())
@@ -96,10 +101,15 @@ func (SlidingWindow) New(cfg Config) fiber.Handler {
 		// we add the expiration to the duration.
 		// Otherwise after the end of "sample window", attackers could launch
 		// a new request with the full window length.
-		manager.set(key, e, time.Duration(resetInSec+expiration)*time.Second) //nolint:gosec // Not a concern
+		err = manager.set(key, e, time.Duration(resetInSec+expiration)*time.Second) //nolint:gosec // Not a concern
 
 		// Unlock entry
 		mux.Unlock()
+
+		// the hit could not be recorded: the request is not admitted
+		if err != nil {
+			return err
+		}
 
 		// Check if hits exceed the cfg.Max
 		if remaining < 0 {
@@ -113,14 +123,18 @@ func (SlidingWindow) New(cfg Config) fiber.Handler {
 
 		// Continue stack for reaching c.Response().StatusCode()
 		// Store err for returning
-		err := c.Next()
+		err = c.Next()
 
 		// Check for SkipFailedRequests and SkipSuccessfulRequests
 		if (cfg.SkipSuccessfulRequests && c.Response().StatusCode() < fiber.StatusBadRequest) ||
 			(cfg.SkipFailedRequests && c.Response().StatusCode() >= fiber.StatusBadRequest) {
 			// Lock entry
 			mux.Lock()
-			e = manager.get(key)
+			e, getErr := manager.get(key)
+			if getErr != nil {
+				mux.Unlock()
+				return getErr
+			}
 			// the entry may have expired while the handler ran: never count below zero
 			if e.currHits > 0 {
 				e.currHits--
@@ -132,9 +146,12 @@ func (SlidingWindow) New(cfg Config) fiber.Handler {
 			if now := uint64(utils.Timestamp()); e.exp > now {
 				ttl += e.exp - now
 			}
-			manager.set(key, e, time.Duration(ttl)*time.Second) //nolint:gosec // Not a concern
+			setErr := manager.set(key, e, time.Duration(ttl)*time.Second) //nolint:gosec // Not a concern
 			// Unlock entry
 			mux.Unlock()
+			if setErr != nil {
+				return setErr
+			}
 		}
 
 		// We can continue, update RateLimit headers
